@@ -252,7 +252,7 @@ class MockState:
             (
                 attribution.source,
                 attribution.line,
-            ) = self.state_machine.get_source_and_line(lineno)
+            ) = self.state_machine.get_source_and_line(lineno + 1)
             blockquote += attribution
             elements += messages
         return elements
